@@ -103,6 +103,8 @@ class Outcome:
         self.summary: dict[str, Any] = {}
 
     def add(self, clause: str, sig: str, msg: str, **facts: Any) -> None:
+        if sum(1 for v in self.violations if v.clause == clause and v.sig == sig) >= 2:
+            return  # enough instances of this one for a run
         self.violations.append(Violation(clause, sig, msg, facts))
 
 
